@@ -746,3 +746,169 @@ func resolvedBefore(p *Prog, fn *ssa.Function, at ssa.Instruction, depth int) (b
 	}
 	return true, fmt.Sprintf("private helper %s: all %d call sites follow a successful resolve call", fnName(top), n)
 }
+
+// ---------- O9, O10 ----------
+
+func init() {
+	register("O9", "parameter bindings are checked for duplicates: in the resolver's function() (and the helpers it calls outside the statement/expression dispatchers) the result of every bind call - whether the name was already bound - is tested, never discarded; all parameter forms (plain, with default, *args, **kwargs) are sibling sites of the same rule", 4, ruleO9)
+	register("O10", "a nesting counter covers the whole construct: every statement list resolved after the increment of a resolver nesting counter (loops, ifstmts) in that function is resolved before the matching decrement, so the else branch of an if and the body of a loop are judged as nested", 3, ruleO10)
+	claim("C09", "O9", "O10")
+}
+
+func ruleO9(c *Ctx) {
+	root := c.P.Func("resolve", "resolver.function")
+	bind := c.P.Func("resolve", "resolver.bind")
+	bindLocal := c.P.Func("resolve", "resolver.bindLocal")
+	if root == nil || bind == nil {
+		c.anchorFail("resolve.(*resolver).function / bind not found")
+		return
+	}
+	isBind := func(f *ssa.Function) bool { return f != nil && (f == bind || f == bindLocal) }
+	// helpers reached from function() without entering a node dispatcher
+	fns := []*ssa.Function{root}
+	seen := map[*ssa.Function]bool{root: true}
+	for i := 0; i < len(fns); i++ {
+		eachInstr(fns[i], func(in ssa.Instruction) {
+			ci, ok := in.(ssa.CallInstruction)
+			if !ok {
+				return
+			}
+			cal := ci.Common().StaticCallee()
+			if cal == nil || cal.Blocks == nil || seen[cal] || isBind(cal) || fnPkgPath(cal) != modPath+"/resolve" || isNodeDispatcher(cal) {
+				return
+			}
+			// statement lists lead into the dispatchers
+			for _, p := range cal.Params {
+				if s, ok := p.Type().(*types.Slice); ok && isSyntaxIface(s.Elem(), "Stmt") {
+					return
+				}
+			}
+			seen[cal] = true
+			fns = append(fns, cal)
+		})
+	}
+	n := 0
+	for _, fn := range fns {
+		fn := fn
+		eachInstr(fn, func(in ssa.Instruction) {
+			call, ok := in.(*ssa.Call)
+			if !ok || !isBind(call.Call.StaticCallee()) {
+				return
+			}
+			n++
+			key := fmt.Sprintf("%s: bind result", fnName(fn))
+			pos := c.P.Pos(call.Pos())
+			used := false
+			if call.Referrers() != nil {
+				for _, r := range *call.Referrers() {
+					switch r.(type) {
+					case *ssa.If, *ssa.Return, *ssa.BinOp, *ssa.UnOp, *ssa.Phi:
+						used = true
+					}
+				}
+			}
+			if used {
+				c.ok(key, pos, "the already-bound result decides a branch (or is returned to the caller)")
+			} else {
+				c.viol(key, pos, "the result of bind (was the name already bound?) is discarded while binding a parameter: a repeated parameter name of this form is silently accepted although the sibling forms reject it")
+			}
+		})
+	}
+	if n < 4 {
+		c.anchorFail("only %d parameter bind sites found under resolver.function", n)
+	}
+}
+
+func ruleO10(c *Ctx) {
+	counters := map[string]bool{"loops": true, "ifstmts": true}
+	n := 0
+	for _, fn := range c.P.Funcs {
+		if fnPkgPath(fn) != modPath+"/resolve" {
+			continue
+		}
+		fn := fn
+		var incs, decs []*ssa.Store
+		fields := map[*ssa.Store]string{}
+		eachInstr(fn, func(in ssa.Instruction) {
+			st, ok := in.(*ssa.Store)
+			if !ok {
+				return
+			}
+			fa, ok := st.Addr.(*ssa.FieldAddr)
+			if !ok {
+				return
+			}
+			o, f := ownerField(fa)
+			if o != "resolve.resolver" || !counters[f] {
+				return
+			}
+			if v, ok := st.Val.(*ssa.BinOp); ok {
+				if k, ok := constInt(v.Y); ok && k == 1 && derivesFromField(v.X, "resolve.resolver", f) {
+					fields[st] = f
+					if v.Op == token.ADD {
+						incs = append(incs, st)
+					} else if v.Op == token.SUB {
+						decs = append(decs, st)
+					}
+				}
+			}
+		})
+		for _, inc := range incs {
+			// the matching decrement: the nearest one dominated by the increment
+			var dec *ssa.Store
+			for _, d := range decs {
+				if fields[d] == fields[inc] && instrDominates(inc, d) && (dec == nil || instrDominates(d, dec)) {
+					dec = d
+				}
+			}
+			if dec == nil {
+				continue // O8 reports unbalanced counters
+			}
+			n++
+			key := fmt.Sprintf("%s: window of %s", fnName(fn), fields[inc])
+			pos := c.P.Pos(inc.Pos())
+			bad := ""
+			cnt := 0
+			eachInstr(fn, func(in ssa.Instruction) {
+				ci, ok := in.(ssa.CallInstruction)
+				if !ok {
+					return
+				}
+				cal := ci.Common().StaticCallee()
+				if cal == nil || fnPkgPath(cal) != modPath+"/resolve" {
+					return
+				}
+				takesStmts := false
+				for _, p := range cal.Params {
+					if s, ok := p.Type().(*types.Slice); ok && isSyntaxIface(s.Elem(), "Stmt") {
+						takesStmts = true
+					}
+					if isSyntaxIface(p.Type(), "Stmt") {
+						takesStmts = true
+					}
+				}
+				if !takesStmts || !instrDominates(inc, in) {
+					return
+				}
+				// another increment of the same counter in between starts a new window
+				for _, other := range incs {
+					if other != inc && fields[other] == fields[inc] && instrDominates(inc, other) && instrDominates(other, in) {
+						return
+					}
+				}
+				cnt++
+				if !instrDominates(in, dec) {
+					bad = fmt.Sprintf("the statements resolved at %s come after the decrement at %s", c.P.Pos(in.Pos()), c.P.Pos(dec.Pos()))
+				}
+			})
+			if bad != "" {
+				c.viol(key, pos, "part of the construct is resolved outside the counter's window ("+bad+"): statements there are not judged as nested, so a static rule that depends on the nesting (load inside a conditional, break outside a loop) is not applied to them")
+			} else {
+				c.ok(key, pos, fmt.Sprintf("%d statement list(s) resolved inside the window", cnt))
+			}
+		}
+	}
+	if n < 3 {
+		c.anchorFail("only %d counter windows found in the resolver", n)
+	}
+}
